@@ -23,6 +23,7 @@ import (
 	"github.com/hugelgupf/p9/fsimpl/composefs"
 	"github.com/hugelgupf/p9/fsimpl/localfs"
 	"github.com/hugelgupf/p9/fsimpl/staticfs"
+	"github.com/hugelgupf/p9/fsimpl/qids"
 	"github.com/hugelgupf/p9/p9"
 
 	"verifharness/peer"
@@ -253,6 +254,46 @@ func concurrent(o *out, goroutines, files int) {
 	wg.Wait()
 }
 
+// sameKey forces the race Qid.tla explores (two callers both missing on the same fresh source):
+// per round all goroutines are released at once on one never-seen source path; every caller must
+// get the same path, later lookups must return it again, and no two sources may share a path.
+func sameKey(o *out, rounds, goroutines int) {
+	m := qids.NewMapper(&qids.PathGenerator{})
+	owner := map[uint64]uint64{}
+	for r := 0; r < rounds; r++ {
+		src := uint64(1000 + r)
+		res := make([]uint64, goroutines)
+		var ready, done sync.WaitGroup
+		start := make(chan struct{})
+		for g := 0; g < goroutines; g++ {
+			ready.Add(1)
+			done.Add(1)
+			go func(g int) {
+				defer done.Done()
+				ready.Done()
+				<-start
+				res[g] = m.QIDFor(p9.QID{Path: src}).Path
+			}(g)
+		}
+		ready.Wait()
+		close(start)
+		done.Wait()
+		o.Lookups += goroutines + 1
+		later := m.QIDFor(p9.QID{Path: src}).Path
+		for g, p := range res {
+			if p != later {
+				o.Findings = append(o.Findings, fmt.Sprintf("Mapper: source %d: concurrent caller %d of %d was told QID path %d, later lookups return %d (Qid.tla Stable)", src, g, goroutines, p, later))
+				return
+			}
+		}
+		if who, ok := owner[later]; ok && who != src {
+			o.Findings = append(o.Findings, fmt.Sprintf("Mapper: sources %d and %d share QID path %d", who, src, later))
+			return
+		}
+		owner[later] = src
+	}
+}
+
 func main() {
 	in := flag.String("in", "", "grid vectors")
 	outp := flag.String("out", "", "")
@@ -269,6 +310,7 @@ func main() {
 		realFiles(*work, o)
 	}
 	concurrent(o, *gor, *files)
+	sameKey(o, 3000, 8)
 	if len(o.Findings) > 30 {
 		o.Findings = o.Findings[:30]
 	}
